@@ -120,6 +120,10 @@ pub fn assemble(rng: &mut Rng, which: usize) -> Case {
   doc.insert("id".into(), json!("c12"));
   let lang = if which % 3 == 2 { SupportLang::Python } else { SupportLang::JavaScript };
   doc.insert("language".into(), json!(if lang == SupportLang::Python { "Python" } else { "JavaScript" }));
+  // the severity written in the file never decides whether the file is accepted
+  if rng.chance(2, 3) {
+    doc.insert("severity".into(), json!(rng.pick(&["off", "hint", "info", "warning", "error"])));
+  }
   let rule = match shape {
     0 => json!({"pattern": "foo($A, $B)"}),
     1 => json!({"pattern": "foo($$$ARGS)"}),
